@@ -651,7 +651,10 @@ func finishSprint(res *hx.Result, u *universe, in *sprintInput, obs *sprintObs, 
 				}
 			}
 		}
-		if len(both) > 0 {
+		if len(both) > 0 && sprintHasDuplicateRefs(in) {
+			// a stored (starting or refreshed) contact names a group twice (fixed by 595be89: taken once, whatever the names)
+			res.Fail("stored-membership-duplicate-reference", in, fmt.Sprintf("after %s: %v", where, both))
+		} else if len(both) > 0 {
 			res.Fail(obs.class+":membership-differs-from-query", in, fmt.Sprintf("after %s: %v", where, both))
 		}
 		if len(either) > 0 {
@@ -773,6 +776,18 @@ func uniForStale() *uniSpec {
 	return &uniSpec{MaxChars: 640, UseLoc: true, Groups: []groupSpec{{Name: "S0"}, {Name: "S1"}, {Name: "Q0", Query: `telegram != ""`, Coq: "QHasScheme 2"}}}
 }
 
+func sprintHasDuplicateRefs(in *sprintInput) bool {
+	if hasDuplicates(in.Contact.Groups) {
+		return true
+	}
+	for _, rs := range in.Resumes {
+		if rs.Refresh != nil && hasDuplicates(rs.Refresh.Groups) {
+			return true
+		}
+	}
+	return false
+}
+
 func sprintCorpus() []*sprintInput {
 	uni := &uniSpec{MaxChars: 640, UseLoc: true, Groups: []groupSpec{{Name: "S0"}, {Name: "S1"},
 		{Name: "Q0", Query: `last_seen_on != ""`, Coq: "QLastSeenSet"}, {Name: "Q1", Query: `tickets > 0`, Coq: "QHasTicket"},
@@ -809,7 +824,14 @@ func sprintCorpus() []*sprintInput {
 	}
 	litUni := &uniSpec{MaxChars: 640, UseLoc: true, Groups: []groupSpec{{Name: "S0"}, {Name: "Created after 2030", Query: `created_on > "2030/12/25"`},
 		{Name: "Created before 2025", Query: `created_on < "2025/12/25"`}}}
+	twice := func() *contactSpec {
+		return &contactSpec{Name: "Jim", Lang: "eng", Status: "active", Groups: []int{1, 0, 1}, StaleGroupNames: true, Fields: map[string]string{}}
+	}
 	return []*sprintInput{
+		// a query group's uuid stored twice under two names, in the starting and in the refreshed contact: the engine's
+		// re-evaluation must take the contact out of it for good (name Jim, Bobs = name = "bob")
+		{Universe: bobsUni(`name = "bob"`, "QNameIs "+hx.Str("bob")), Contact: twice(), Trigger: "manual", Nodes: []nodeSpec{{Wait: "msg"}, {}},
+			Resumes: []resumeSpec{{Kind: "msg", Refresh: twice()}}},
 		// hunt2 C06 f1: the assets are loaded with YYYY-MM-DD, the session carries DD-MM-YYYY: "2030/12/25" is not a date in
 		// the session's format; the contact (created 2019) must stay out of the first group and in the second
 		{Universe: litUni, Contact: &contactSpec{Name: "Jim", Lang: "eng", Status: "active", Groups: []int{0, 2}, Fields: map[string]string{}}, Trigger: "manual",
